@@ -368,6 +368,20 @@ def absent_key_values(chk: Check, fi: FunctionInfo, key: str, ctor_names: tuple[
     return res
 
 
+def _digit_pattern_call(a: ast.AST, fn_module) -> bool:
+    """`re.fullmatch(<digit pattern>, x)` or `<module-level re.compile(<digit pattern>)>.fullmatch(x)`."""
+    if not (isinstance(a, ast.Call) and (dotted(a.func) or "").split(".")[-1] in ("fullmatch", "match")):
+        return False
+    if any(isinstance(x, ast.Constant) and isinstance(x.value, str) and ("[0-9]" in x.value or "[1-6][0-9]" in x.value) for x in walk(a)):
+        return True
+    mc = method_call(a)
+    if mc and isinstance(mc[0], ast.Name) and fn_module is not None:
+        expr = fn_module.constants.get(mc[0].id)
+        if isinstance(expr, ast.Call) and (dotted(expr.func) or "") == "re.compile" and expr.args and isinstance(expr.args[0], ast.Constant) and isinstance(expr.args[0].value, str):
+            return "[0-9]" in expr.args[0].value or "[1-6][0-9]" in expr.args[0].value
+    return False
+
+
 def strict_int_guarded(g: Graph, n: Node, ic: ast.Call) -> bool:
     """``int(<text>)`` at node ``n`` is reachable only behind a test that the
     text consists of ASCII digits (`re.fullmatch(r"...[0-9]...", text)` or
@@ -385,7 +399,7 @@ def strict_int_guarded(g: Graph, n: Node, ic: ast.Call) -> bool:
             a, flip = a.operand, not flip
         txt = norm(a)
         strict = False
-        if isinstance(a, ast.Call) and (dotted(a.func) or "").split(".")[-1] in ("fullmatch", "match") and var in txt and any(isinstance(x, ast.Constant) and isinstance(x.value, str) and ("[0-9]" in x.value or "[1-6][0-9]" in x.value) for x in walk(a)):
+        if var in txt and _digit_pattern_call(a, getattr(n.func, "module", None)):
             strict = True
         if isinstance(a, ast.BoolOp) and isinstance(a.op, ast.And) and var in txt and ".isascii()" in txt and (".isdigit()" in txt or ".isdecimal()" in txt):
             strict = True
